@@ -17,12 +17,14 @@ META = dict(
         "a spelling differs from the canonical form in >= 2 op classes; distinct = distinct (site, spelling, defaultns)."
     ),
     assumptions=[
-        "remainders contain no ':' and do not start with a blank/mark (MediaWiki-legal shape); no '#', '|', '%XX'",
+        "remainders do not start with ':' or a blank/mark (MediaWiki-legal shape); a ':' inside a remainder only follows a "
+        "word that is not a namespace name of the site; no '#', '|', '%XX'",
+        "one NsHandler per site configuration is shared by all cases of a shard (normalisation must not depend on call history)",
         "a namespace name that two namespaces of one site share (case-insensitively) is skipped, counted in notes",
         "capitalisation of the first letter is accepted as either str.upper() or str.title() of that letter",
         "bidi marks only at the edges of the title / of the remainder (the quantifier's wording)",
     ],
-    floors={"nontrivial": (0.30, None), "ns:alias": (0.05, None), "op:marks": (0.10, None)},
+    floors={"nontrivial": (0.30, None), "ns:alias": (0.05, None), "op:marks": (0.10, None), "colon-in-remainder": (0.05, None)},
 )
 
 LANGS = "de en es fr it ja nl no pl pt simple sv".split()
@@ -54,7 +56,8 @@ def site(lang, flipped):
             names.setdefault(nm.lower().replace("_", " "), set()).add(nid)
         entries = sorted(set(e for e in entries))
         ok = [e for e in entries if len(names[e[2].lower().replace("_", " ")]) == 1 and ":" not in e[2]]
-        _sites[key] = (NsHandler(si), si, ok, len(entries) - len(ok))
+        nonns = [p for p in COLON_PREFIXES if p.lower() not in names]
+        _sites[key] = (NsHandler(si), si, ok, len(entries) - len(ok), nonns)
     return _sites[key]
 
 
@@ -64,13 +67,20 @@ remainder_chars = st.one_of(
 )
 
 
+COLON_PREFIXES = ["Re", "star trek", "2001", "x", "Ab-c", "Zz top"]
+
+
 @st.composite
-def remainders(draw):
+def remainders(draw, nonns_prefixes=()):
     cs = draw(st.lists(remainder_chars, min_size=1, max_size=12))
     s = "".join(cs)
     s = re.sub(r" +", " ", s).strip(" ")
     if not s:
         s = draw(st.sampled_from(["a", "Z", "ß", "9"]))
+    if nonns_prefixes and draw(st.integers(0, 5)) == 0:
+        # a colon that does not follow a namespace name is part of the title ("Star Trek: Voyager", "Re:Zero");
+        # drawn from a small pool so that the same prefix recurs on one handler under different default namespaces
+        s = draw(st.sampled_from(nonns_prefixes)) + draw(st.sampled_from([":", ": "])) + draw(st.sampled_from(["Zero", "voyager", s]))
     return s
 
 
@@ -138,10 +148,10 @@ def spelling(draw, nsname, rem):
 def cases(draw):
     lang = draw(st.sampled_from(LANGS))
     flipped = draw(st.booleans())
-    _, _, entries, _ = site(lang, flipped)
+    _, _, entries, _, nonns = site(lang, flipped)
     use_ns = draw(st.integers(0, 4))
     ent = draw(st.sampled_from(entries)) if use_ns else None
-    rem = draw(remainders())
+    rem = draw(remainders(nonns))
     defaultns = draw(st.sampled_from([0, 0, 6, 10, 14]))
     sp = [draw(spelling(ent[2] if ent else None, rem)) for _ in range(2)]
     return dict(lang=lang, flipped=flipped, ent=list(ent) if ent else None, rem=rem, defaultns=defaultns,
@@ -163,8 +173,72 @@ def expected(si, ent, rem, defaultns, leading_colon):
     return nsid, local, partials
 
 
+_calls = {}
+
+
+class _Collect:
+    """stand-in ctx that only collects bucket names"""
+
+    def __init__(self):
+        self.buckets = set()
+
+    def fail(self, bucket, case, detail=""):
+        self.buckets.add(bucket)
+
+
+class _Logged:
+    def __init__(self, handler, log):
+        self.handler, self.log = handler, log
+
+    def splitname(self, text, dns):
+        self.log.append([text, dns])
+        return self.handler.splitname(text, dns)
+
+
+def fresh_handler(lang, flipped):
+    from mwlib.core.nshandling import NsHandler
+
+    return NsHandler(copy.deepcopy(site(lang, flipped)[1]))
+
+
 def check(ctx, case):
-    handler, si, _, _ = site(case["lang"], case["flipped"])
+    """Runs the case on the shard's shared handler (so that dependence on call history can show) and, when it
+    fails there but not on a fresh handler, minimises the preceding calls into case['history']."""
+    key = (case["lang"], case["flipped"])
+    log = _calls.setdefault(key, [])
+    before = len(log)
+    col = _Collect()
+    if case.get("history"):
+        h = fresh_handler(*key)
+        for text, dns in case["history"]:
+            h.splitname(text, dns)
+        return check_on(ctx, case, h, site(*key)[1])
+    check_on(col, case, _Logged(site(*key)[0], log), site(*key)[1])
+    if not col.buckets:
+        return
+    fresh = _Collect()
+    check_on(fresh, case, fresh_handler(*key), site(*key)[1])
+    if fresh.buckets:
+        return check_on(ctx, case, fresh_handler(*key), site(*key)[1])
+    from ..shrink import ddmin
+
+    def still(hist):
+        h = fresh_handler(*key)
+        for text, dns in hist:
+            h.splitname(text, dns)
+        c = _Collect()
+        check_on(c, case, h, site(*key)[1])
+        return bool(c.buckets & col.buckets)
+
+    hist = log[:before]
+    if still(hist):
+        hist = ddmin(hist, still, 20.0)
+    case = dict(case, history=hist)
+    for b in sorted(col.buckets):
+        ctx.fail("history-dependent:" + b, case, "fails after the calls in case['history'] on the same NsHandler, holds on a fresh one")
+
+
+def check_on(ctx, case, handler, si):
     ent, rem, dns = case["ent"], case["rem"], case["defaultns"]
     results = []
     for text in case["spellings"]:
@@ -221,6 +295,8 @@ def run_shard(ctx):
         labels = ["lang:" + case["lang"], "flipped" if case["flipped"] else "as-shipped",
                   "ns:" + (case["ent"][0] if case["ent"] else "none"), "dns:%d" % case["defaultns"]]
         opsall = set(case["ops"][0]) | set(case["ops"][1])
+        if ":" in case["rem"]:
+            labels.append("colon-in-remainder")
         labels += ["op:" + o for o in sorted(opsall)]
         nontriv = max(len(case["ops"][0]), len(case["ops"][1])) >= 2
         if nontriv:
